@@ -37,6 +37,32 @@
  *     a NEW source on the recycled number must get its event;
  *   - cancel_and_wait returns only in the final state; dispatch_source_testcancel != 0 after every cancel;
  *   - final state at quiescence for every entry point (before activation, twice, while suspended, hang-up race).
+ *   - dispatch_source_set_cancel_handler / _f on an ACTIVATED source (modes set_ch_*; block and function form chosen at
+ *     random per call; every handler is a GENERATION: 1 = the one set before activation, 2.. = the calls in issue order,
+ *     which is a real-time order: the calls of one execution never overlap).  What src/source.c guarantees, and what is
+ *     judged (Cancel.tla, "dispatch_source_set_cancel_handler on an activated source"):
+ *       _dispatch_source_set_handler never drops a mutation (its "Ignore handlers mutations past cancelation" guards
+ *       diagnostics only): the continuation is exchanged into ds_handler[DS_CANCEL_HANDLER] either inline under the
+ *       source's barrier (_dispatch_barrier_trysync_or_async_f found dq_state completely idle) followed by
+ *       dx_wakeup(BARRIER_COMPLETE), or by a barrier item on the source's own list that _dispatch_source_invoke2 drains
+ *       FIRST, before its cancellation tests, on whatever queue it runs; _dispatch_source_wakeup sends a source with
+ *       {CANCELED, DELETED} and a handler left (or items left) to its target queue, and _dispatch_source_invoke2 calls
+ *       _dispatch_source_cancel_callout there whenever {CANCELED, DELETED} - also again, after an earlier callout.  Hence:
+ *       (a) the handler of the LAST call (non-NULL), on a source that is or gets cancelled, is invoked exactly once - no
+ *           matter whether the call came before the cancel, between the cancel and the first callout, or after the source
+ *           had long reached its final state; 0 invocations is a violation (detected without a time bound: the source's
+ *           dq_state idle + DSF_DELETED + empty item list for 5 ms with every client call returned means nothing is in
+ *           flight any more; a hang is left to the watchdog);
+ *       (b) an EARLIER generation is invoked 0 or 1 times: 1 when a callout found it in the slot before its replacement
+ *           took effect (e.g. cancel + set from the event handler: the handler's own invoke2 is past the drain, its
+ *           callout takes the old handler, the barrier item installs the new one afterwards and gets its own callout) -
+ *           the C code leaves that race open, both outcomes are accepted; the exact clause "never after the replacement
+ *           took effect" is checked on the recorded slot exchanges by CancelTrace.tla;
+ *       (c) invocations happen in generation order (a later generation in the slot means the earlier one was taken out
+ *           before), no generation twice, a NULL call installs nothing;
+ *       (d) EVERY cancel handler invocation obeys the old clauses: target queue, no event handler running, after the
+ *           last event handler end, {CANCELED, DELETED}, unote unregistered, descriptor not monitored, never followed by an
+ *           event handler start.
  * Object ids given to verif_rt are unique per execution and the projector keeps only the records of the current
  * execution's two objects (source, refs); the next execution starts after the source's finalizer ran.
  */
@@ -58,16 +84,26 @@ enum { M_PRE, M_PRE_TWICE, M_HANDLER, M_TQITEM, M_FOREIGN, M_FOREIGN_TWICE, M_HA
        /* registration handler (runs once on the target queue as part of the source's invoke, after installation and
         * before the first event delivery) with an event ALREADY pending: it cancels its own source / merges data
         * (then a foreign thread cancels) / merges and cancels */
-       M_REG_CANCEL, M_REG_MERGE, M_REG_MERGE_CANCEL, M_N };
+       M_REG_CANCEL, M_REG_MERGE, M_REG_MERGE_CANCEL,
+       /* dispatch_source_set_cancel_handler[_f] after activation (see the header) */
+       M_SCH_HANDLER,     /* event handler: dispatch_source_cancel(ds); dispatch_source_set_cancel_handler(ds, h) */
+       M_SCH_FOREIGN,     /* another thread: cancel, then - at once / a little later / after the cancellation completed - set */
+       M_SCH_TQITEM,      /* an item on the target queue: cancel + set, or set + cancel */
+       M_SCH_REPLACE,     /* another thread replaces the handler BEFORE the cancel (cancel from there or from the event handler) */
+       M_SCH_CLEAR,       /* another thread clears the handler with NULL, then cancels; sometimes installs one again afterwards */
+       M_SCH_TWICE,       /* cancel, then install twice (from the event handler or from another thread) */
+       M_N };
 static const char *MNAME[] = { "pre_activation", "pre_activation_twice", "from_handler", "from_target_queue_item", "foreign",
        "foreign_twice", "handler_and_foreign", "cancel_and_wait", "cancel_and_wait_pre_activation", "while_suspended",
        "hangup_race", "cancel_and_wait_hangup_race", "from_registration_handler", "registration_handler_merges",
-       "registration_handler_merges_and_cancels" };
+       "registration_handler_merges_and_cancels", "set_ch_from_handler_after_cancel", "set_ch_foreign_after_cancel",
+       "set_ch_from_target_queue_item", "set_ch_replace_before_cancel", "set_ch_clear_then_cancel", "set_ch_twice_after_cancel" };
 enum { CTX_MAIN_PRE = 0, CTX_HANDLER = 1, CTX_TQITEM = 2, CTX_FOREIGN = 3, CTX_CAW = 4, CTX_MAIN = 5, CTX_REGH = 6 };
 static const char *CTXNAME[] = { "pre", "handler", "tqitem", "foreign", "caw", "foreign", "reghandler" };
 
 #define MAXH 512
 #define MAXC 8
+#define MAXG 7          /* handler generations per execution (1 = set before activation) */
 typedef struct exec_s {
 	int id, kind, mode, serial, has_ch, obj, robj;
 	dispatch_source_t ds;
@@ -82,12 +118,16 @@ typedef struct exec_s {
 	_Atomic uint64_t foreign_cancel_ret;   /* first RETURN of a cancel issued from elsewhere */
 	_Atomic uint64_t caw_ret;
 	_Atomic int late_after_foreign, late_after_caw, running_at_caw_ret;
-	int handler_cancel_at;                 /* cancel from the handler at this invocation (1-based), 0 = never */
+	_Atomic int handler_cancel_at;         /* cancel from the handler at this invocation (1-based), 0 = never */
 	_Atomic int handler_cancelled;
 	dispatch_semaphore_t ch_sem, h_sem, new_sem, fin_sem;
 	dispatch_source_t ds2;
 	_Atomic int new_events, old_after_recycle, steered_late, regstarts, regrunning, pending_at_reg;
 	int recycled;
+	/* cancel handler generations */
+	_Atomic int ngen, final_gen, nsets, script_done, variant;
+	_Atomic int gstarts[MAXG + 1], gends[MAXG + 1];
+	_Atomic int handler_cancel_armed;      /* M_SCH_REPLACE: the event handler cancels once the replacement call returned */
 } exec_t;
 
 static uint64_t g_seed;
@@ -96,7 +136,7 @@ static _Atomic int g_fail;
 static exec_t *g_cur;
 static pthread_t g_prod_th, g_canc_th;
 static _Atomic int g_prod_go, g_canc_go, g_threads_exit;
-static _Atomic long g_stat_reg_cancel_pending;
+static _Atomic long g_stat_reg_cancel_pending, g_stat_sets, g_stat_old_gen_ran, g_stat_set_after_final, g_stat_idle_timeout;
 static _Atomic long g_stat_late1, g_stat_running_at_caw, g_stat_late_caw, g_stat_hangup_deleted;
 static int g_epfd = -1;
 static char g_key;
@@ -276,6 +316,8 @@ static void recycle_descriptor(exec_t *x)
 }
 
 /* ---------------- handlers of the source under test ---------------- */
+static int is_set_mode(int m);
+static int do_set_ch(exec_t *x, int ctx, int nul);
 static void ev_handler(void *ctx)
 {
 	exec_t *x = ctx;
@@ -327,9 +369,17 @@ static void ev_handler(void *ctx)
 		break;
 	default: break;
 	}
-	if (x->handler_cancel_at && n >= x->handler_cancel_at && !atomic_exchange(&x->handler_cancelled, 1)) {
+	int hca = atomic_load(&x->handler_cancel_at);
+	if (x->mode == M_SCH_REPLACE && !atomic_load(&x->handler_cancel_armed)) hca = 0;
+	if (hca && n >= hca && !atomic_exchange(&x->handler_cancelled, 1)) {
 		do_cancel(x, CTX_HANDLER);
 		if (x->mode == M_HANDLER && (vrt_rand() & 1)) do_cancel(x, CTX_HANDLER);   /* cancel twice from the handler */
+		if (x->mode == M_SCH_HANDLER || x->mode == M_SCH_TWICE) {
+			/* "decide about the clean-up once we know we are done": install the cancel handler right after the cancel */
+			do_set_ch(x, CTX_HANDLER, 0);
+			if (x->mode == M_SCH_TWICE) do_set_ch(x, CTX_HANDLER, 0);
+		}
+		if (is_set_mode(x->mode)) atomic_store(&x->script_done, 1);
 	}
 	if (vrt_rand() % 3 == 0) { volatile int z = 0; int k = (int)(vrt_rand() % 3000); for (int i = 0; i < k; i++) z++; }
 	if (n == 1) dispatch_semaphore_signal(x->h_sem);
@@ -339,22 +389,29 @@ static void ev_handler(void *ctx)
 	vrt_progress();
 }
 
-static void cancel_handler(void *ctx)
+static int is_set_mode(int m) { return m >= M_SCH_HANDLER && m <= M_SCH_TWICE; }
+
+/* the cancel handler of generation g (1 = set before activation, 2.. = the dispatch_source_set_cancel_handler calls) */
+static void cancel_handler_g(exec_t *x, int g)
 {
-	exec_t *x = ctx;
 	int on = on_target(x);
 	int running = atomic_load(&x->hrunning);
 	int n = atomic_fetch_add(&x->chstarts, 1) + 1;
-	/* is the kernel registration gone?  (asked before anything else touches the descriptor) */
+	int gn = atomic_fetch_add(&x->gstarts[g], 1) + 1;
+	/* is the kernel registration gone?  (asked before anything else touches the descriptor; once the first invocation
+	 * has recycled the descriptor number the number belongs to another source) */
 	int mon = 0;
-	if (is_fdkind(x->kind)) mon = epoll_monitors(x->fd, is_writekind(x->kind) ? EPOLLOUT : EPOLLIN);
+	if (is_fdkind(x->kind) && !x->recycled) mon = epoll_monitors(x->fd, is_writekind(x->kind) ? EPOLLOUT : EPOLLIN);
 	else if (x->kind == K_SIGNAL) mon = count_signalfds() > 0;
 	dispatch_queue_flags_t dqf = os_atomic_load2o(x->ds, dq_atomic_flags, relaxed);
 	dispatch_unote_state_t st = os_atomic_load2o(x->dr, du_state, relaxed);
-	uint64_t s = vrt_api("ChStart", x->obj, x->id, on, mon == 1);
-	atomic_store(&x->chstart_seq, s);
-	if (atomic_load(&x->closed)) oracle_fail(x, "cancel handler invoked after the execution was finished", n, 0);
-	if (n != 1) oracle_fail(x, "cancel handler invoked more than once", n, 0);
+	uint64_t s = vrt_api("ChStart", x->obj, g, on, mon == 1);
+	if (n == 1) atomic_store(&x->chstart_seq, s);
+	if (atomic_load(&x->closed)) oracle_fail(x, "cancel handler invoked after the execution was finished", n, g);
+	if (gn != 1) oracle_fail(x, "cancel handler (one generation) invoked more than once", gn, g);
+	if (n != 1 && !is_set_mode(x->mode)) oracle_fail(x, "cancel handler invoked more than once", n, 0);
+	for (int h = g + 1; h <= MAXG; h++)
+		if (atomic_load(&x->gstarts[h])) oracle_fail(x, "a replaced cancel handler was invoked after the handler that replaced it", g, h);
 	if (!on) oracle_fail(x, "cancel handler not on the target queue", 0, 0);
 	if (running) oracle_fail(x, "cancel handler started while the event handler was running", running, 0);
 	if (atomic_load(&x->hend_last) > s) oracle_fail(x, "cancel handler started before the last event handler invocation returned", 0, 0);
@@ -364,10 +421,56 @@ static void cancel_handler(void *ctx)
 	if (!dispatch_source_testcancel(x->ds)) oracle_fail(x, "dispatch_source_testcancel == 0 inside the cancel handler", 0, 0);
 	if (is_fdkind(x->kind) && x->keepfd >= 0 && n == 1) recycle_descriptor(x);
 	if (vrt_rand() % 2) { volatile int z = 0; int k = (int)(vrt_rand() % 2000); for (int i = 0; i < k; i++) z++; }
-	uint64_t e = vrt_api("ChEnd", x->obj, x->id, on, 0);
+	uint64_t e = vrt_api("ChEnd", x->obj, g, on, 0);
 	atomic_store(&x->chend_seq, e);
 	atomic_fetch_add(&x->chends, 1);
+	atomic_fetch_add(&x->gends[g], 1);
 	dispatch_semaphore_signal(x->ch_sem);
+	vrt_progress();
+}
+static void cancel_handler(void *ctx) { cancel_handler_g(ctx, 1); }
+static void cancel_handler_f2(void *ctx) { cancel_handler_g(ctx, 2); }
+static void cancel_handler_f3(void *ctx) { cancel_handler_g(ctx, 3); }
+static void cancel_handler_f4(void *ctx) { cancel_handler_g(ctx, 4); }
+static void cancel_handler_f5(void *ctx) { cancel_handler_g(ctx, 5); }
+static void cancel_handler_f6(void *ctx) { cancel_handler_g(ctx, 6); }
+static void cancel_handler_f7(void *ctx) { cancel_handler_g(ctx, 7); }
+static dispatch_function_t const CHF[MAXG + 1] = { NULL, cancel_handler, cancel_handler_f2, cancel_handler_f3, cancel_handler_f4,
+		cancel_handler_f5, cancel_handler_f6, cancel_handler_f7 };
+
+/* nothing of the source is in flight: {CANCELED, DELETED}, dq_state without drain owner / enqueued bits / suspend count,
+ * no item on the source's own list (only meaningful once every client call on the source has returned) */
+static int source_at_rest(exec_t *x)
+{
+	dispatch_queue_flags_t dqf = x->ds->dq_atomic_flags;
+	if (!(dqf & DSF_CANCELED) || !(dqf & DSF_DELETED)) return 0;
+	uint64_t st = x->ds->dq_state;
+	if (st & (DISPATCH_QUEUE_DRAIN_OWNER_MASK | DISPATCH_QUEUE_ENQUEUED | DISPATCH_QUEUE_ENQUEUED_ON_MGR)) return 0;
+	if (_dq_state_is_suspended(st)) return 0;
+	if (x->ds->dq_items_tail || x->ds->dq_items_head) return 0;
+	return 1;
+}
+
+/* dispatch_source_set_cancel_handler / _f on the activated source: the next generation, or NULL.  Calls of one execution
+ * are issued one after the other (never concurrently), so the issue order is the order of their effects. */
+static int do_set_ch(exec_t *x, int ctx, int nul)
+{
+	int g = atomic_fetch_add(&x->ngen, 1) + 1;
+	if (g > MAXG) return 0;
+	int block = (int)(vrt_rand() & 1);
+	if ((x->ds->dq_atomic_flags & DSF_DELETED) && !nul) atomic_fetch_add(&g_stat_set_after_final, 1);
+	vrt_api("SchCall", x->obj, x->id, g | (nul << 8), ctx);
+	if (block) {
+		if (nul) dispatch_source_set_cancel_handler(x->ds, NULL);
+		else dispatch_source_set_cancel_handler(x->ds, ^{ cancel_handler_g(x, g); });
+	} else {
+		dispatch_source_set_cancel_handler_f(x->ds, nul ? NULL : CHF[g]);
+	}
+	vrt_api("SchRet", x->obj, x->id, g | (nul << 8), ctx);
+	atomic_store(&x->final_gen, nul ? 0 : g);
+	atomic_fetch_add(&x->nsets, 1);
+	atomic_fetch_add(&g_stat_sets, 1);
+	return g;
 }
 
 static int is_reg_mode(int m) { return m == M_REG_CANCEL || m == M_REG_MERGE || m == M_REG_MERGE_CANCEL; }
@@ -405,6 +508,13 @@ static void reg_handler(void *ctx)
 
 static void finalizer_fn(void *ctx) { exec_t *x = ctx; dispatch_semaphore_signal(x->fin_sem); }
 static void citem_fn(void *ctx) { exec_t *x = ctx; do_cancel(x, CTX_TQITEM); }
+static void sitem_fn(void *ctx)
+{
+	exec_t *x = ctx;
+	if (x->variant & 1) { do_cancel(x, CTX_TQITEM); do_set_ch(x, CTX_TQITEM, 0); }
+	else { do_set_ch(x, CTX_TQITEM, 0); do_cancel(x, CTX_TQITEM); }
+	atomic_store(&x->script_done, 1);
+}
 static void nop_fn(void *ctx) { (void)ctx; }
 
 /* ---------------- helper threads ---------------- */
@@ -485,6 +595,41 @@ static void *canceller(void *arg)
 			usleep((unsigned)(vrt_rand() % 400));
 			do_caw(x);
 			break;
+		case M_SCH_FOREIGN: case M_SCH_TWICE:
+			/* cancel; then install: at once (racing the unregistration / the first callout), a little later, or after
+			 * the source has long reached its final state (the late handler still gets its callout) */
+			wait_handler_runs(x, (int)(vrt_rand() % 4), 3000);
+			usleep((unsigned)(vrt_rand() % 400));
+			do_cancel(x, CTX_FOREIGN);
+			for (int k = 0; k < (x->mode == M_SCH_TWICE ? 2 : 1); k++) {
+				int v = (x->variant >> (2 * k)) % 3;
+				if (v == 1) usleep((unsigned)(vrt_rand() % 300));
+				if (v == 2) { for (int i = 0; i < 4000 && !source_at_rest(x); i++) usleep(50); usleep(200); }
+				do_set_ch(x, CTX_FOREIGN, 0);
+			}
+			atomic_store(&x->script_done, 1);
+			break;
+		case M_SCH_REPLACE:
+			/* replace the handler set before activation, THEN cancel (here, or from the event handler) */
+			wait_handler_runs(x, (int)(vrt_rand() % 3), 3000);
+			usleep((unsigned)(vrt_rand() % 300));
+			do_set_ch(x, CTX_FOREIGN, 0);
+			if (x->variant & 1) { do_cancel(x, CTX_FOREIGN); atomic_store(&x->script_done, 1); }
+			else { atomic_store(&x->handler_cancel_at, atomic_load(&x->hstarts) + 1); atomic_store(&x->handler_cancel_armed, 1); }
+			break;
+		case M_SCH_CLEAR:
+			/* clear with NULL, then cancel; sometimes install a handler again afterwards */
+			wait_handler_runs(x, (int)(vrt_rand() % 3), 3000);
+			usleep((unsigned)(vrt_rand() % 300));
+			do_set_ch(x, CTX_FOREIGN, 1);
+			if (x->variant & 2) usleep((unsigned)(vrt_rand() % 200));
+			do_cancel(x, CTX_FOREIGN);
+			if (x->variant & 1) {
+				if (x->variant & 4) { for (int i = 0; i < 4000 && !source_at_rest(x); i++) usleep(50); }
+				do_set_ch(x, CTX_FOREIGN, 0);
+			}
+			atomic_store(&x->script_done, 1);
+			break;
 		default: break;
 		}
 		atomic_store(&g_canc_go, 0);
@@ -523,21 +668,35 @@ static void pst(FILE *f, const char *k, uint64_t s)
 }
 
 static int p_obj = -1, p_robj = -1;
+/* continuation addresses seen in the cancel-handler slot of the current execution -> small ids (0 = NULL) */
+static uint64_t p_ptr[64]; static int p_nptr;
+static int pid_of(uint64_t v)
+{
+	if (!v) return 0;
+	for (int i = 0; i < p_nptr; i++) if (p_ptr[i] == v) return i + 1;
+	if (p_nptr < 64) p_ptr[p_nptr++] = v;
+	return p_nptr;
+}
+#define CANCEL_SLOT_OFF ((long)(offsetof(struct dispatch_source_refs_s, ds_handler) + DS_CANCEL_HANDLER * sizeof(void *)))
 static void proj(FILE *f, const vrt_rec_t *r)
 {
 	switch (r->kind) {
 	case VRT_MARK:
-		if (!strcmp(r->name, "Reset")) { p_obj = (int)(r->a >> 16); p_robj = (int)(r->b >> 8); }
+		if (!strcmp(r->name, "Reset")) { p_obj = (int)(r->a >> 16); p_robj = (int)(r->b >> 8); p_nptr = 0; }
 		if (!strcmp(r->name, "Reset"))
 			fprintf(f, "{\"e\":\"Reset\",\"kind\":\"%s\",\"kl\":\"%s\",\"mode\":\"%s\",\"serial\":%s,\"ch\":%s,\"x\":%ld}\n", KNAME[r->a & 15], KLONG[r->a & 15],
-					MNAME[(r->a >> 4) & 31], (r->b & 1) ? "true" : "false", (r->b & 2) ? "true" : "false", r->c);
+					MNAME[(r->a >> 4) & 63], (r->b & 1) ? "true" : "false", (r->b & 2) ? "true" : "false", r->c);
 		else fprintf(f, "{\"e\":\"%s\"}\n", r->name);
 		break;
 	case VRT_API:
 		if (!strcmp(r->name, "CancelCall") || !strcmp(r->name, "CancelRet"))
 			fprintf(f, "{\"e\":\"%s\",\"t\":%d,\"ctx\":\"%s\",\"own\":%s,\"n\":%llu}\n", r->name, r->tid, CTXNAME[r->b], r->c ? "true" : "false", (unsigned long long)r->seq);
-		else if (!strcmp(r->name, "HStart") || !strcmp(r->name, "HEnd") || !strcmp(r->name, "ChStart") || !strcmp(r->name, "ChEnd") ||
-				!strcmp(r->name, "RStart") || !strcmp(r->name, "REnd"))
+		else if (!strcmp(r->name, "ChStart") || !strcmp(r->name, "ChEnd"))
+			fprintf(f, "{\"e\":\"%s\",\"t\":%d,\"g\":%ld,\"on\":%s,\"k\":%ld,\"n\":%llu}\n", r->name, r->tid, r->a, r->b ? "true" : "false", r->c, (unsigned long long)r->seq);
+		else if (!strcmp(r->name, "SchCall") || !strcmp(r->name, "SchRet"))
+			fprintf(f, "{\"e\":\"%s\",\"t\":%d,\"g\":%ld,\"nul\":%s,\"ctx\":\"%s\",\"n\":%llu}\n", r->name, r->tid, r->b & 255, (r->b >> 8) ? "true" : "false",
+					CTXNAME[r->c], (unsigned long long)r->seq);
+		else if (!strcmp(r->name, "HStart") || !strcmp(r->name, "HEnd") || !strcmp(r->name, "RStart") || !strcmp(r->name, "REnd"))
 			fprintf(f, "{\"e\":\"%s\",\"t\":%d,\"on\":%s,\"k\":%ld,\"n\":%llu}\n", r->name, r->tid, r->b ? "true" : "false", r->c, (unsigned long long)r->seq);
 		else
 			fprintf(f, "{\"e\":\"%s\",\"t\":%d,\"a\":%ld,\"b\":%ld,\"n\":%llu}\n", r->name, r->tid, r->b, r->c, (unsigned long long)r->seq);
@@ -560,6 +719,12 @@ static void proj(FILE *f, const vrt_rec_t *r)
 			fprintf(f, "{\"e\":\"DU\",\"t\":%d,\"f\":\"%s\",\"op\":\"%s\",", r->tid, r->site->dvs_func, op);
 			pdu(f, "old", r->oldv); fputc(',', f); pdu(f, "new", r->newv);
 			fprintf(f, ",\"line\":%d}\n", r->site->dvs_line);
+		} else if (r->cls == 5) {
+			/* the cancel-handler slot ds_handler[DS_CANCEL_HANDLER] (loads, the exchanges of _dispatch_source_handler_take /
+			 * _dispatch_source_handler_replace) */
+			if (r->obj != p_robj || r->off != CANCEL_SLOT_OFF) break;
+			fprintf(f, "{\"e\":\"HN\",\"t\":%d,\"f\":\"%s\",\"op\":\"%s\",\"old\":%d,\"new\":%d,\"line\":%d}\n", r->tid, r->site->dvs_func, op,
+					pid_of(r->oldv), pid_of(r->newv), r->site->dvs_line);
 		} else if (r->cls == 4) {
 			fprintf(f, "{\"e\":\"PD\",\"t\":%d,\"f\":\"%s\",\"op\":\"%s\",\"oldnz\":%s,\"newnz\":%s,\"line\":%d}\n", r->tid, r->site->dvs_func, op,
 					r->oldv ? "true" : "false", r->newv ? "true" : "false", r->site->dvs_line);
@@ -600,6 +765,11 @@ static void run_one(int id)
 	if (!mode_ok(x->kind, x->mode)) x->mode = M_FOREIGN;
 	x->serial = (vrt_rand() % 3) != 0;
 	x->has_ch = !(x->mode == M_CAW || x->mode == M_CAW_PRE || x->mode == M_CAW_HANGUP);
+	x->variant = (int)(vrt_rand() & 0xffff);
+	/* late installs: with or without a handler set before activation (the replace / clear scenarios need one) */
+	if (is_set_mode(x->mode) && x->mode != M_SCH_REPLACE && x->mode != M_SCH_CLEAR && (vrt_rand() & 1)) x->has_ch = 0;
+	atomic_store(&x->ngen, 1);
+	atomic_store(&x->final_gen, x->has_ch ? 1 : 0);
 	x->fd = x->keepfd = x->peerfd = x->rd2 = x->wr2 = -1;
 	x->ch_sem = dispatch_semaphore_create(0); x->h_sem = dispatch_semaphore_create(0); x->new_sem = dispatch_semaphore_create(0);
 	x->fin_sem = dispatch_semaphore_create(0);
@@ -647,7 +817,8 @@ static void run_one(int id)
 		uint64_t iv = 100000ull + vrt_rand() % 1500000ull;   /* 0.1 .. 1.6 ms */
 		dispatch_source_set_timer(x->ds, dispatch_time(DISPATCH_TIME_NOW, (int64_t)(vrt_rand() % 500000)), iv, 0);
 	}
-	if (x->mode == M_HANDLER || x->mode == M_HANDLER_AND_FOREIGN) x->handler_cancel_at = 1 + (int)(vrt_rand() % 3);
+	if (x->mode == M_HANDLER || x->mode == M_HANDLER_AND_FOREIGN || x->mode == M_SCH_HANDLER ||
+			(x->mode == M_SCH_TWICE && (x->variant & 64))) x->handler_cancel_at = 1 + (int)(vrt_rand() % 3);
 	/* registrations are never dropped: object ids are unique per execution, the projector keeps only the
 	 * records of the current execution's two objects (a library thread may still be finishing with the
 	 * previous source, or another object may be allocated where an old one was) */
@@ -682,8 +853,16 @@ static void run_one(int id)
 		dispatch_async_f(x->tq, x, citem_fn);
 		break;
 	case M_FOREIGN: case M_FOREIGN_TWICE: case M_HANDLER_AND_FOREIGN: case M_CAW: case M_HANGUP_RACE: case M_CAW_HANGUP:
-	case M_REG_MERGE:
+	case M_REG_MERGE: case M_SCH_FOREIGN: case M_SCH_REPLACE: case M_SCH_CLEAR:
 		atomic_store(&g_canc_go, 1);
+		break;
+	case M_SCH_TWICE:
+		if (!(x->variant & 64)) atomic_store(&g_canc_go, 1);
+		break;
+	case M_SCH_TQITEM:
+		wait_handler_runs(x, (int)(vrt_rand() % 4), 3000);
+		usleep((unsigned)(vrt_rand() % 300));
+		dispatch_async_f(x->tq, x, sitem_fn);
 		break;
 	case M_SUSPENDED:
 		wait_handler_runs(x, (int)(vrt_rand() % 3), 3000);
@@ -700,7 +879,21 @@ static void run_one(int id)
 	default: break;
 	}
 	/* ---- wait for the end of the life cycle: a hang here is a violation (watchdog, exit 71) ---- */
-	if (x->has_ch) {
+	if (is_set_mode(x->mode)) {
+		/* every client call has returned; then: the handler of the last call has run, or nothing of the source is in
+		 * flight any more (at rest for 5 ms: it never will) */
+		while (!atomic_load(&x->script_done)) usleep(50);
+		while (atomic_load(&g_canc_go)) usleep(50);
+		int rest = 0, spins = 0;
+		for (;;) {
+			int fg = atomic_load(&x->final_gen);
+			int ran = !fg || atomic_load(&x->gends[fg]) > 0;
+			if (source_at_rest(x)) rest++; else rest = 0;
+			if (rest >= 20) break;
+			if (ran && ++spins > 8000) { atomic_fetch_add(&g_stat_idle_timeout, 1); break; }    /* 2 s: go on, the trace decides */
+			usleep(250);
+		}
+	} else if (x->has_ch) {
 		dispatch_semaphore_wait(x->ch_sem, DISPATCH_TIME_FOREVER);
 	} else {
 		while (atomic_load(&g_canc_go)) usleep(50);    /* cancel_and_wait returns by itself */
@@ -724,7 +917,20 @@ static void run_one(int id)
 
 	/* ---- verdicts on the recorded order ---- */
 	int hs = atomic_load(&x->hstarts), cs = atomic_load(&x->chstarts);
-	if (x->has_ch && cs != 1) oracle_fail(x, "cancel handler count != 1", cs, 0);
+	if (x->has_ch && cs != 1 && !is_set_mode(x->mode)) oracle_fail(x, "cancel handler count != 1", cs, 0);
+	if (is_set_mode(x->mode)) {
+		int fg = atomic_load(&x->final_gen);
+		if (fg && atomic_load(&x->gstarts[fg]) != 1)
+			oracle_fail(x, "the cancel handler installed by the last dispatch_source_set_cancel_handler call (or never replaced) was not "
+					"invoked exactly once on the cancelled source", atomic_load(&x->gstarts[fg]), fg);
+		for (int g = 1; g <= MAXG; g++) {
+			int k = atomic_load(&x->gstarts[g]);
+			if (k > 1) oracle_fail(x, "a cancel handler generation was invoked more than once", k, g);
+			if (k && g > atomic_load(&x->ngen)) oracle_fail(x, "a cancel handler that was never installed was invoked", k, g);
+			if (k != atomic_load(&x->gends[g])) oracle_fail(x, "a cancel handler is still running at quiescence", k, g);
+			if (k && g != fg) atomic_fetch_add(&g_stat_old_gen_ran, 1);
+		}
+	}
 	if (atomic_load(&x->hrunning)) oracle_fail(x, "event handler still running at quiescence", 0, 0);
 	uint64_t chs = atomic_load(&x->chstart_seq);
 	for (int i = 0; i < hs && i < MAXH; i++) {
@@ -774,6 +980,7 @@ int main(int argc, char **argv)
 	vrt_add_class("dq_state", 2);
 	vrt_add_class("du_state", 3);
 	vrt_add_class("ds_pending_data", 4);
+	vrt_add_class("ds_handler", 5);
 	vrt_set_hang_seconds(45);   /* progress-based: no record / handler / execution for 45 s */
 	if (g_steer) vrt_set_steer(steer);
 	(void)vrt_tid();
@@ -784,9 +991,11 @@ int main(int argc, char **argv)
 	pthread_join(g_prod_th, NULL); pthread_join(g_canc_th, NULL);
 	vrt_dump();
 	fprintf(stderr, "records=%zu overflow=%d threads=%d late_after_foreign_cancel=%ld late_after_caw=%ld handler_running_at_caw_ret=%ld "
-			"steered_hangup=%ld steered_late=%ld reg_cancel_with_event_pending=%ld\n",
+			"steered_hangup=%ld steered_late=%ld reg_cancel_with_event_pending=%ld set_ch_calls=%ld replaced_handler_ran_before_replacement=%ld "
+			"set_ch_after_final_state=%ld rest_wait_timeouts=%ld\n",
 			vrt_count(), vrt_overflowed(), vrt_nthreads(), atomic_load(&g_stat_late1), atomic_load(&g_stat_late_caw),
 			atomic_load(&g_stat_running_at_caw), atomic_load(&g_stat_steer_hup), atomic_load(&g_stat_steer_late),
-			atomic_load(&g_stat_reg_cancel_pending));
+			atomic_load(&g_stat_reg_cancel_pending), atomic_load(&g_stat_sets), atomic_load(&g_stat_old_gen_ran),
+			atomic_load(&g_stat_set_after_final), atomic_load(&g_stat_idle_timeout));
 	return atomic_load(&g_fail) ? 2 : 0;
 }
